@@ -19,6 +19,7 @@ CHECKS = {
     "C13": ("harness.checks.socalloc", "model_checking"),
     "C14": ("harness.checks.exporttruth", "model_checking"),
     "C15": ("harness.checks.eventfam", "model_checking"),
+    "C16": ("harness.checks.packetfam", "model_checking"),
     "C17": ("harness.checks.code8b10b", "model_checking"),
     "C18": ("harness.checks.secded", "model_checking"),
     "C20": ("harness.checks.pll", "model_checking"),
